@@ -456,6 +456,8 @@ def touch_spec(n_rows, sp_hand, udi, stop_at_rounds, calls, is_rounds_row, metho
                         # That's all while a start is pending: an order-sensitive corner the property's
                         # text does not settle (the model covers it; this oracle abstains)
                         return None
+                    if not in_method:
+                        continue      # rounds / the opening row is being rung anyway: nothing to come back to
                     thats_all_at = i - 1
                 elif c == "Stand next":
                     stand = True
@@ -504,7 +506,7 @@ class StartStopSuite(SystemSuite):
         self.which = which
 
     def make(self, rng, *, stage, n, start_index, udi, sar, placements, nrows, custom=None, method="x1x1x1,2",
-             stray_go=False, relook_row=None, relook_mid=None, settings=None):
+             stray_go=False, relook_row=None, relook_mid=None, settings=None, extra=None):
         dur = Fraction(1, 8)
         look_to = Fraction(131, 1000)
         sch = Schedule(look_to, dur)
@@ -518,6 +520,8 @@ class StartStopSuite(SystemSuite):
                 j = row * n + place
                 t = sch.pause(j, Fraction(rng.randint(20, 80), 101)) if in_pause else sch.wait(j, Fraction(rng.randint(5, 95), 101))
                 evs.append(ev(t, "setting", payload))
+            for (row, place, kind, payload) in (extra or []):
+                evs.append(ev(sch.wait(row * n + place, Fraction(rng.randint(5, 95), 101)), kind, payload))
         if stray_go:       # a Go nobody should remember: delivered while Wheatley is idle
             evs.append(ev(Fraction(57, 1000), "call", "Go"))
         if relook_row is not None:   # a fresh Look to right after a whole pull has been completed
@@ -621,6 +625,17 @@ class StartStopSuite(SystemSuite):
                              [(t + 1, rng.randrange(n), rng.random() < 0.3, payload)]
                         yield self.make(rng, stage=stage, n=n, start_index=si, udi=False, sar=sar, nrows=nrows, method=method,
                                         placements=[(g, rng.randrange(n), False, "Go"), (t, p_call, False, call)], settings=st)
+        # That's all while the opening rounds are still being rung and nobody has said Go yet (stop-at-rounds on and off):
+        # it means nothing - rounds go on, a later Go starts the method as usual, nothing stands by itself
+        for (stage, n) in ((4, 4), (6, 6), (4, 5)):
+            for si in (0, 1):
+                for sar in (False, True):
+                    for t0 in (0, 1, 2):
+                        if rng.random() < (0.5 if tier == "quick" else 1.0):
+                            g = t0 + rng.randint(2, 4)
+                            yield self.make(rng, stage=stage, n=n, start_index=si, udi=False, sar=sar, nrows=nrows + 8,
+                                            method="x1x1,2" if stage % 2 == 0 else "3.1",
+                                            placements=[(t0, rng.randrange(n), False, "That's all"), (g, rng.randrange(n), False, "Go")])
         # the touch COMES ROUND (plain hunt on four: eight changes), That's all is called in the row before rounds or in
         # the rounds row itself, and a second Go is called in the closing rounds: the method starts again
         for n in (4, 5):
@@ -851,6 +866,26 @@ class SecondTouchSuite(StartStopSuite):
             yield case
         for _ in range(20 if tier == "quick" else 200):
             yield self.rounds_midlead(rng)
+        for _ in range(20 if tier == "quick" else 200):
+            # server mode: while the touch is being rung somebody chooses the method for the NEXT touch; the Bob or Single
+            # called afterwards belongs to the touch in progress
+            method = rng.choice(list(self.METHODS))
+            stage, expanded = self.METHODS[method]
+            L = len(expanded)
+            n = stage + rng.choice([0, 1])
+            bob = rng.choice(self.CALLDEFS[stage])
+            single = rng.choice(self.CALLDEFS[stage])
+            g = rng.randint(0, 1)
+            rq = g + 2 + rng.randint(0, L)
+            rc = rq + 1 + rng.randint(0, L)
+            pl = [(g, rng.randrange(n), False, "Go"), (rc, rng.randrange(n), False, rng.choice(["Bob", "Single"]))]
+            queued = {"type": "method", "stage": rng.choice([4, 6, stage]), "notation": "x1"}
+            case = self.make(rng, stage=stage, n=n, start_index=rng.choice([0, 0, 2]), udi=False, sar=False, placements=pl,
+                             nrows=rc + 2 * L + 4, method=method, settings=[], extra=[(rq, rng.randrange(n), "row_gen", queued)])
+            case["gen"]["bob"], case["gen"]["single"] = bob[0], single[0]
+            case["oracle"]["defs"] = {"bob": None if bob[1] is None else {str(k): v for k, v in bob[1].items()},
+                                      "single": None if single[1] is None else {str(k): v for k, v in single[1].items()}}
+            yield case
 
     def rounds_midlead(self, rng):
         """Plain Bob Minor from a start row chosen so that ROUNDS comes up as a row of the method in the middle of a
@@ -882,6 +917,11 @@ class SecondTouchSuite(StartStopSuite):
         if any(c in ("Bob", "Single") for (_r, c) in case["oracle"]["calls"]) or case["gen"].get("bob") or case["gen"].get("single"):
             return None       # (the row-level reading of C06 knows the plain course only; these are judged under C05)
         return StartStopSuite.oracle_C06(self, case, out)
+
+    def oracle_C04(self, case, out):
+        """calls made during a touch act on that touch, at the positions its method defines (row by row against the
+        reference interpreter given the calls of the session)"""
+        return self.oracle_C05(case, out)
 
     def _check_custom_go(self, case, out):
         """the rounds-mid-lead sessions: the second Go must change nothing, i.e. the method simply carries on"""
@@ -1086,7 +1126,7 @@ class GateSuite(SystemSuite):
         for i, bells in enumerate(full):
             if i < 2 and bells != opening:
                 return f"opening row {i} was {bells}, expected {opening} for a tower of {n}"
-            keep = max(stage, len(custom or ""))
+            keep = stage         # (also the bells a long custom start row puts beyond the stage: they are covers too)
             if bells[keep:] != opening[keep:]:
                 return f"row {i}: covers {bells[keep:]} are not the surplus bells in order {opening[keep:]}"
             if sorted(bells) != list(range(1, n + 1)):
@@ -1527,6 +1567,7 @@ def wait_session(rng, tier):
         evs.append(ev(Fraction(5, 100) + Fraction(b, 10000), "assign", b, 11))
     evs.append(ev(look_to, "call", "Look to"))
     shift = Fraction(0)          # humans follow the band: later blows move with earlier hold-ups (roughly)
+    skipped = False
     long_done = False
     stand_called = False
     for r, row in enumerate(rows):
@@ -1551,12 +1592,16 @@ def wait_session(rng, tier):
                 t += late
                 shift += late
             elif k < 0.85:
+                skipped = True        # (early / ahead / doubled blows may legitimately leave Wheatley waiting at the end)
                 t -= iv * Fraction(rng.randint(50, 250), 100)                  # early within / before the row
             elif k < 0.92:
+                skipped = True
                 t -= iv * n                                                    # a whole row ahead
             elif k < 0.97:
+                skipped = True
                 evs.append(ev(t + iv / 5 + Fraction(rng.randint(1, 99), 10 ** 6), "ring", bell))   # doubled
             else:
+                skipped = True
                 continue                                                       # never rings: Wheatley must wait
             t = max(t, look_to + Fraction(1, 50))
             evs.append(ev(t + Fraction(rng.randint(1, 999), 10 ** 7), "ring", bell))
@@ -1565,7 +1610,8 @@ def wait_session(rng, tier):
           "initial_inertia": 0}
     sc = {"gen": spec, "udi": True, "stop_at_rounds": False, "call_comps": True, "name": None, "instance": None,
           "rhythm": rh, "delta": fstr(rng.choice([0, Fraction(1, 1000)])), "horizon": fstr(horizon),
-          "events": sorted_events(evs), "oracle": {"humans": sorted(humans), "n": n}}
+          "events": sorted_events(evs), "oracle": {"humans": sorted(humans), "n": n, "nrows": nrows,
+                                                   "all_rung": not skipped and not stand_called}}
     if long_done:
         sc["oracle_only"] = True       # tens of thousands of polls: judged on the implementation's trace only
     return sc
@@ -1613,6 +1659,42 @@ def wait_session_two(rng):
     return {"gen": spec, "udi": True, "stop_at_rounds": False, "call_comps": True, "name": None, "instance": None,
             "rhythm": rh, "delta": fstr(rng.choice([0, Fraction(1, 1000)])), "horizon": fstr(horizon),
             "events": sorted_events(evs), "oracle": {"humans": sorted(humans), "n": n, "look2": fstr(look2)}}
+
+
+def wait_session_long_hold(rng):
+    """A punctual band on many bells; once, somebody is late by several seconds - dozens of places on the line Wheatley is
+    ringing to - and then everybody carries on in step.  Every blow is rung: the touch is completed."""
+    n = rng.choice([8, 10, 12])
+    spec = {"kind": "plain_hunt", "stage": n, "custom": None}
+    nrows = 6
+    rows = probe_rows(spec, n, nrows)
+    humans = set(rng.sample(range(2, n + 1), rng.randint(1, 3)))
+    peal = rng.choice([150, 180])
+    iv = blow_interval(peal, n)
+    look_to = Fraction(rng.randint(15, 40), 100) + Fraction(1, 1000)
+    start = look_to + 3
+    evs = [ev(0, "global", [True] * n), ev(Fraction(3, 100), "user_entered", 11, "Alice")]
+    for b in sorted(humans):
+        evs.append(ev(Fraction(5, 100) + Fraction(b, 10000), "assign", b, 11))
+    evs.append(ev(look_to, "call", "Look to"))
+    r_late = rng.randint(1, 3)
+    b_late = rng.choice(sorted(humans))
+    late = Fraction(rng.choice([7, 9, 12]))
+    shift = Fraction(0)
+    for r, row in enumerate(rows):
+        for p, bell in enumerate(row):
+            if bell not in humans:
+                continue
+            t = start + shift + iv * (r * n + p + (r // 2)) - Fraction(5, 1000)
+            if r == r_late and bell == b_late:
+                t += late
+                shift += late
+            evs.append(ev(t + Fraction(rng.randint(1, 999), 10 ** 7), "ring", bell))
+    horizon = start + shift + iv * (nrows * n + nrows // 2) + Fraction(1, 2) + Fraction(1, 3000)
+    rh = {"kind": "wait", "inertia": rng.choice([0.5, 0.0]), "peal_speed": peal, "gap": 1.0, "max": 15, "initial_inertia": 0}
+    return {"gen": spec, "udi": True, "stop_at_rounds": False, "call_comps": True, "name": None, "instance": None,
+            "rhythm": rh, "delta": fstr(rng.choice([0, Fraction(1, 1000)])), "horizon": fstr(horizon),
+            "events": sorted_events(evs), "oracle": {"humans": sorted(humans), "n": n, "nrows": nrows, "all_rung": True}}
 
 
 def wait_session_up_wrong(rng):
@@ -1670,6 +1752,8 @@ class WaitSuite(SystemSuite):
             yield wait_session_two(rng)
         for _ in range(24 if tier == "quick" else 240):
             yield wait_session_up_wrong(rng)
+        for _ in range(12 if tier == "quick" else 120):
+            yield wait_session_long_hold(rng)
 
     def to_coq(self, case, out):
         c = {k: v for k, v in case.items() if k not in ("oracle", "oracle_only")}
@@ -1723,6 +1807,14 @@ class WaitSuite(SystemSuite):
     def oracle_C10(self, case, out):
         if "trace" in out and out["outcome"][0] == "crashed":
             return f"main loop died: {out['outcome'][1:3]}"
+        orc = case["oracle"]
+        if "trace" in out and orc.get("all_rung"):
+            # every human rang every blow (however late): by the end of the session Wheatley has completed the rows
+            n = orc["n"]
+            done = [b for (_r, b, _t) in rows_rung(out) if len(b) == n]
+            if len(done) < orc["nrows"] - 1:
+                return (f"every human rang every one of their blows, yet only {len(done)} of {orc['nrows']} rows were completed "
+                        f"by the end of the session: Wheatley is waiting for a blow that has been struck")
         return None
 
 
@@ -1869,7 +1961,14 @@ class ServerSuite(SystemSuite):
                 selections.append((tm, s))
             if mode == "stop":
                 j = rng.randrange(2 * n, (nrows - 1) * n)
-                ts = sch.wait(j, Fraction(rng.randint(5, 90), 97)) if rng.random() < 0.7 else sch.pause(j, Fraction(rng.randint(20, 80), 97))
+                in_wait = rng.random() < 0.7
+                if rng.random() < 0.4:
+                    # ... while the LAST bell of a row is still due: the strike that goes out ends the row, and the turnover
+                    # into the next row (a handstroke or a backstroke) must not start the ringing again
+                    r_stop = rng.choice([r for r in range(1, nrows - 1) if r % 2 == 1] * 2 + list(range(2, nrows - 1)))
+                    j = r_stop * n + n - 1
+                    in_wait = True
+                ts = sch.wait(j, Fraction(rng.randint(5, 90), 97)) if in_wait else sch.pause(j, Fraction(rng.randint(20, 80), 97))
                 evs.append(ev(ts, "stop_touch"))
                 touch["stop"] = fstr(ts)
                 t = ts + Fraction(1, 2)
